@@ -128,7 +128,7 @@ def gen_records(rng):
 
 
 def gen_raire(rng):
-    ncon = rng.randint(1, 3)
+    ncon = rng.randint(1, 3) if rng.random() < 0.9 else rng.choice((10, 12, 25))
     cons = [f"{100 + j}" for j in range(ncon)]
     cands = {c: [str(rng.randint(1, 9) * 10 + k) for k in range(rng.randint(2, 5))] for c in cons}
     if rng.random() < 0.3:
@@ -142,7 +142,7 @@ def gen_raire(rng):
     bids = [f"1_{rng.randint(1, 3)}_{j}" for j in range(nb)]
     lines = []
     for b in bids:
-        for c in rng.sample(cons, rng.randint(1, ncon)):
+        for c in rng.sample(cons, rng.randint(1, min(ncon, 3))):
             k = rng.randint(0, len(cands[c]))
             lines.append([c, b] + rng.sample(cands[c], k))
     if lines and rng.random() < 0.3:   # the same (ballot, contest) twice: the later line wins
